@@ -472,6 +472,98 @@ func pubsub(s *scen) {
 	s.release(-1)
 }
 
+// two contexts of one SUB socket, each read by its own goroutine, both matching every publication: each gets the
+// published bytes, and may then do what it likes with its message (it is its own) without the other noticing.
+func subConcurrent(s *scen) {
+	pub, sub := s.open("pub"), s.open("sub")
+	defer pub.Close()
+	defer sub.Close()
+	var ctxs []mangos.Context
+	for i := 0; i < 2; i++ {
+		c, err := sub.OpenContext()
+		if err != nil {
+			s.note("context: %v", err)
+			return
+		}
+		_ = c.SetOption(mangos.OptionSubscribe, []byte(""))
+		setd(c, 2*time.Second, 0)
+		ctxs = append(ctxs, c)
+	}
+	if !s.connect(pub, sub) {
+		return
+	}
+	sizes := []int{60000, 200000, 900000, 70, 5000}
+	rounds := 12
+	for r := 0; r < rounds; r++ {
+		want := s.body(fmt.Sprintf("sc%02d", r), sizes[r%len(sizes)])
+		if s.send(pub, nil, want) != nil {
+			continue
+		}
+		var wg sync.WaitGroup
+		for ci, c := range ctxs {
+			wg.Add(1)
+			go func(ci int, c mangos.Context) {
+				defer wg.Done()
+				h, err := s.recv(c)
+				if err != nil {
+					s.note("context %d round %d: %v", ci, r, err)
+					s.mu.Lock()
+					s.snapOK = false
+					s.mu.Unlock()
+					return
+				}
+				if !bytes.Equal(h.m.Body, want) {
+					s.mu.Lock()
+					s.snapOK = false
+					s.mu.Unlock()
+					s.note("context %d round %d: received %d bytes %s.., published %d bytes %s..", ci, r, len(h.m.Body), hx(h.m.Body), len(want), hx(want))
+				}
+				// its own message: use it as scratch space, then give it back
+				s.drop(h)
+				for i := range h.m.Body {
+					h.m.Body[i] = 0xEE
+				}
+				app(opAppFree, h.m)
+				h.m.Free()
+			}(ci, c)
+		}
+		wg.Wait()
+	}
+	s.settle("sub concurrent")
+}
+
+// a context with READQ-LEN 0 that nobody is receiving on, next to a busy sibling matching the same publications: what the
+// idle one cannot take is dropped once; the sibling's copies stay intact.
+func subZeroQueue(s *scen) {
+	pub, sub := s.open("pub"), s.open("sub")
+	defer pub.Close()
+	defer sub.Close()
+	idle, e1 := sub.OpenContext()
+	busy, e2 := sub.OpenContext()
+	if e1 != nil || e2 != nil {
+		return
+	}
+	_ = idle.SetOption(mangos.OptionReadQLen, 0)
+	_ = idle.SetOption(mangos.OptionSubscribe, []byte(""))
+	_ = busy.SetOption(mangos.OptionReadQLen, 64)
+	_ = busy.SetOption(mangos.OptionSubscribe, []byte(""))
+	setd(busy, 300*time.Millisecond, 0)
+	if !s.connect(pub, sub) {
+		return
+	}
+	for i := 0; i < 30; i++ {
+		if s.send(pub, nil, s.body(fmt.Sprintf("zq%02d", i), s.size())) != nil {
+			continue
+		}
+		if i%3 == 2 {
+			s.recvN(busy, 3)
+			s.churn(s.heldSizes())
+			s.settle("sub zero queue")
+		}
+	}
+	s.release(-1)
+}
+
 // BUS mesh of three.
 func busMesh(s *scen) {
 	b := []*sock{s.open("bus"), s.open("bus"), s.open("bus")}
@@ -1199,6 +1291,8 @@ func jobs() []job {
 				}
 			}
 			add(true, "pubsub", pubsub)
+			add(ti == 0, "sub-concurrent", subConcurrent)
+			add(ti < 2, "sub-zeroq", subZeroQueue)
 			add(true, "bus-mesh", busMesh)
 			add(false, "bus-bounce", busBounce)
 			add(true, "star", star)
